@@ -5,3 +5,4 @@ open Just.Props.C14
 #print axioms echo_is_command
 #print axioms dry_run_line
 #print axioms dry_run_executes_nothing
+#print axioms dry_run_main_executes_nothing
